@@ -9,9 +9,10 @@ ids=${@:-$(ls seeded)}
 for id in $ids; do
   prop=${id%%-*}
   if ! git -C /repo apply /verif/seeded/$id/patch.diff 2>/dev/null; then echo "$id  PATCH-DOES-NOT-APPLY"; continue; fi
-  out=$(timeout 2400 bin/vcheck $prop 2>&1 | grep -E "^(# |VIOLATION|OK |KNOWN)" | head -3 | tr '\n' ' ' | cut -c1-260)
+  full=$(timeout 2400 bin/vcheck $prop 2>&1 | grep -E "^(# |VIOLATION|OK |KNOWN)")
   git -C /repo checkout -q -- .
-  case "$out" in
+  out=$(echo "$full" | head -2 | tr '\n' ' ' | cut -c1-220)
+  case "$full" in
     *VIOLATION*) echo "$id  caught   $out";;
     *) echo "$id  MISSED   $out";;
   esac
